@@ -76,6 +76,16 @@ def main():
         run(f"Nuclide id={z}", lambda: rd.Nuclide(z).nuclide)
     for k, v in BADK.items():
         run(f"Nuclide badkey={k}", lambda: rd.Nuclide(v if k != "list" else tuple(v)).nuclide)
+    # time units: every entry point that takes one, with radioactive AND stable receivers (a stable nuclide must not slip through)
+    for u in req.get("bad_time_units", []):
+        for name in ("H-3", "He-3", "Pb-208", "Tc-99m"):
+            run(f"half_life badtimeunit={u!r} {name}", lambda: d.half_life(name, u))
+            run(f"Nuclide.half_life badtimeunit={u!r} {name}", lambda: rd.Nuclide(name).half_life(u))
+            for cname, cls in (("Inventory", rd.Inventory), ("InventoryHP", rd.InventoryHP)):
+                run(f"{cname}.half_lives badtimeunit={u!r} {name}", lambda: cls({name: 1.0}, "num").half_lives(u))
+                run(f"{cname}.decay badtimeunit={u!r} {name}", lambda: cls({name: 1.0}, "num").decay(1.0, u).contents)
+                run(f"{cname}.cumulative_decays badtimeunit={u!r} {name}", lambda: cls({name: 1.0}, "num").cumulative_decays(1.0, u))
+            run(f"Inventory.decay_time_series badtimeunit={u!r} {name}", lambda: rd.Inventory({name: 1.0}, "num").decay_time_series(1.0, time_units=u, npoints=2))
     # read_csv rows
     tmp = tempfile.mkdtemp(prefix="rdverif_")
     try:
